@@ -841,8 +841,9 @@ func c20Judge(in []byte, wantErr bool, orig c20MCause, why string) (v c20Verdict
 		return v
 	}
 	if shortened && fits {
-		v.fail("C20/cause/needless-shortening", "the cause fits in %d bytes as it is (%d bytes) but the output is shortened: %s", model.MaxErrorCauseSizeBytes, len(canonical), c20Ab(string(got)))
-		return v
+		// the property allows shortening ("possibly shortened") without saying when: an implementation that crops a cause
+		// which would have fitted still satisfies it, so this is counted, not reported
+		v.Labels = append(v.Labels, "cause:shortened-although-it-fits")
 	}
 	if !shortened {
 		v.Labels = append(v.Labels, "cause:unshortened")
